@@ -21,6 +21,10 @@ func main() {
 		cmdHarness(os.Args[2:])
 	case "run":
 		os.Exit(cmdRun(os.Args[2:]))
+	case "replay":
+		os.Exit(cmdReplay(os.Args[2:]))
+	case "selftest":
+		os.Exit(cmdSelftest())
 	default:
 		fmt.Fprintln(os.Stderr, "unknown command", os.Args[1])
 		os.Exit(2)
